@@ -135,6 +135,51 @@ def worker(args, scratch):
             bump("silent_connection_then_port_reuse")
             with lock:
                 res["nontrivial"].append(common.sha(["silent", a.user, b.user, k % 5]))
+        # ---- history 5: the host endpoint is unreachable when the attributed connection is accepted (nothing listens there)
+        for k in range(args["pairs"] // 6):
+            a = r.choice(idents)
+            conn = w.open(("127.0.0.2", 9), a)      # original destination: a port nobody listens on
+            port = conn.src_port
+            try:
+                conn.send(rawhttp.build_request("GET", "/down/%d" % k, [("x-vf-id", "c07-%d-d%d" % (args["shard"], k))]))
+                st = conn.read_response().status
+            except Exception as e:  # noqa
+                st = "error:%r" % (e,)
+            if standin.present(w.vdir, port):
+                viol("record-not-consumed-at-accept", {"port": port, "history": "attributed connection whose host endpoint is unreachable", "status": st})
+            conn.close(abort=True)
+            try:
+                connb = w.open(record=False, src_port=port)
+                do_requests(connb, a, "c07-%d-d%d-B" % (args["shard"], k), 1, expect_unattributed=True)
+                connb.close()
+            except OSError:
+                bump("port_reuse_bind_failed")
+            except Exception as e:  # noqa
+                viol("no-response-on-reused-port", {"port": port, "err": repr(e)})
+            bump("host_unreachable_then_port_reuse")
+        # ---- history 6: the diverted client is bound to a non-loopback local address (the kernel keys the record by source port only)
+        for k in range(args["pairs"] // 6):
+            a = r.choice(idents)
+            c = rawhttp.Conn("127.0.0.1", 3080, src_ip=r.choice(["168.63.129.16", "169.254.169.254", "127.0.0.2"]), connect=False, timeout=10)
+            port = c.src_port
+            standin.inject(w.vdir, port, a.uid, a.pid, 1 if a.uid == 0 else 0, "169.254.169.254", 80)
+            try:
+                c.connect()
+                do_requests(c, a, "c07-%d-n%d-A" % (args["shard"], k), r.randrange(1, 3))
+            except Exception as e:  # noqa
+                viol("attributed-connection-from-non-loopback-address-not-served", {"port": port, "err": repr(e)})
+            if standin.present(w.vdir, port):
+                viol("record-not-consumed-at-accept", {"port": port, "history": "client bound to a non-loopback local address"})
+            c.close(abort=True)
+            try:
+                connb = w.open(record=False, src_port=port)
+                do_requests(connb, a, "c07-%d-n%d-B" % (args["shard"], k), 1, expect_unattributed=True)
+                connb.close()
+            except OSError:
+                bump("port_reuse_bind_failed")
+            except Exception as e:  # noqa
+                viol("no-response-on-reused-port", {"port": port, "err": repr(e)})
+            bump("non_loopback_source_then_port_reuse")
         # the event log must show lookup-hit followed by remove-hit for every attributed port
         evs = standin.events(w.vdir)
         hits = {}
